@@ -79,7 +79,7 @@ def _rank_oracle(ctx: Ctx, rng):
     from formulaic import model_matrix
     ncat = rng.randint(0, 3)
     nnum = rng.randint(0, 2) if ncat else rng.randint(1, 2)
-    cats = {c: M.CAT[c][: rng.randint(1, 3)] for c in list(M.CAT)[:ncat]}
+    cats = {c: M.CAT[c][: rng.randint(1, 3)] for c in sorted(rng.sample(list(M.CAT), ncat))}      # any of the factors, incl. the one whose first level is ''
     nums = M.NUM[:nnum]
     terms = gen_lattice_terms(rng, cats, nums)
     contrast = rng.choice([None, None, "treatment", "sum", "helmert", "diff", "poly", "SAS"])
@@ -130,7 +130,7 @@ def run(ctx: Ctx):
     for i in range(ctx.n(500, 8000)):
         frame = M.gen_frame(rng, nmax=6, pnull=rng.choice([0, 0, 0.1]), cat_dtypes=("object", "category"))
         ncat = rng.randint(0, 3)
-        cats = list(M.CAT)[:ncat]
+        cats = sorted(rng.sample(list(M.CAT), ncat))
         nums = M.NUM[: rng.randint(0, 2)] or (["a"] if not cats else [])
         terms = [[(x, "lookup") for x in t] for t in gen_lattice_terms(rng, {c: None for c in cats}, nums)]
         if rng.random() < 0.7:
